@@ -23,7 +23,7 @@ Streams (kinds; every kind is also re-run by harness/c04.py under each back-end)
   dtype     node tables whose x/y/z columns are uint8 / uint16 / int16 / uint32 / int32 / int64: small edges and edges whose squared
             coordinate differences overflow the column dtype (child coordinates smaller than the parent's for the unsigned ones)
 """
-import warnings, random, itertools
+import warnings, random, itertools, math
 import numpy as np
 import pandas as pd
 
@@ -865,6 +865,8 @@ def case_mesh(ctx, case, be=None):
 
 # ================================================================================================ dtype
 SIG_FC_INT_OVERFLOW = 'navis-fastcore parent_dist/integer coordinate columns/squared coordinate difference overflows the column dtype'
+# what remains after the repair (ece9888): the compiled parent_dist returns float32 whatever it is handed
+SIG_FC_F32 = 'navis-fastcore parent_dist/float32 result/lengths or sums that need more than 24 significant bits'
 
 DT_MAX = {'uint8': 2 ** 8 - 1, 'uint16': 2 ** 16 - 1, 'int16': 2 ** 15 - 1, 'uint32': 2 ** 32 - 1, 'int32': 2 ** 31 - 1, 'int64': 2 ** 63 - 1}
 # integer-length edge vectors per regime: (vector, length)
@@ -926,6 +928,20 @@ def square_overflow(rows, dt):
     return False
 
 
+def needs_more_than_f32(rows):
+    """Is some edge length, or the total cable, at least 2^24 (the integers float32 represents exactly end there)?"""
+    byid = {r['id']: r for r in rows}
+    tot = 0
+    for r in rows:
+        if r['parent'] >= 0:
+            p = byid[r['parent']]
+            ln = math.isqrt(sum((r[c] - p[c]) ** 2 for c in 'xyz'))
+            tot += ln
+            if ln >= 2 ** 24:
+                return True
+    return tot >= 2 ** 24
+
+
 def to_neuron_dtype(rows, dt):
     df = G.rows_to_df(rows)
     for c in ('x', 'y', 'z'):
@@ -944,8 +960,10 @@ def case_dtype(ctx, case, be=None):
     ids = [r['id'] for r in rows]
     sid = sorted(ids)
     ovf = square_overflow(rows, dt)
-    # values that come from navis-fastcore when it is active: it is handed the raw integer columns and computes in their dtype
-    fsig = SIG_FC_INT_OVERFLOW if (navis.utils.fastcore and ovf) else None
+    # values that come from navis-fastcore when it is active.  Since ece9888 it is handed float coordinates (no overflow in the
+    # column dtype any more: no signature for that); its parent_dist still returns float32, so edge lengths / sums of at least
+    # 2^24 are rounded there while the graph-based paths keep float64
+    fsig = SIG_FC_F32 if (navis.utils.fastcore and needs_more_than_f32(rows)) else None
     ctx.count('dtype', f'{dt}/{case["regime"]}/{"overflow" if ovf else "fits"}')
     w = f'(x/y/z columns {dt}) {tag}'
     cable = ctx.ask('f.cable ' + wire)
